@@ -623,10 +623,15 @@ async fn handler(w: W, progs: Rc<Value>, expect: Rc<Value>, mut req: Request) ->
     if read == "none" && keep == "drop" {
         payload = None;
     }
-    let limit: usize = if read == "all" { usize::MAX } else if let Some(k) = read.strip_prefix("n:") { k.parse().unwrap_or(0) } else { 0 };
+    // "step": the whole body, but every chunk only after one more handler token
+    let limit: usize = if read == "all" || read == "step" { usize::MAX } else if let Some(k) = read.strip_prefix("n:") { k.parse().unwrap_or(0) } else { 0 };
     let mut got = 0usize;
     let mut off = 0usize;
+    let declared_len: u64 = req.headers().get("content-length").and_then(|v| v.to_str().ok()).and_then(|v| v.parse().ok()).unwrap_or(u64::MAX);
     while got < limit {
+        if read == "step" && (off as u64) < declared_len {
+            GateFut { w: w.clone(), i, body: false }.await;
+        }
         let Some(pl) = payload.as_mut() else { break };
         let item = std::future::poll_fn(|cx| Pin::new(&mut *pl).poll_next(cx)).await;
         match item {
